@@ -229,7 +229,7 @@ func init() {
 			return map[string][]string{"node_kind": c20NodeKinds, "position": {"sort-field", "sort-field beyond the fifth", "set-function", "in-subject", "between-subject", "contains-subject", "null-test", "subquery-set", "map-element", "dotted", "nested-depth-3", "inside-subquery"}}
 		},
 		MinCounters: func(core.Tier) map[string]int64 {
-			return map[string]int64{"single_private_rejections": 1500, "all_public_accepts": 800, "inner_symbol_rejections": 25, "validated_through_child_store": 300}
+			return map[string]int64{"single_private_rejections": 1500, "all_public_accepts": 800, "inner_symbol_rejections": 12, "validated_through_child_store": 300}
 		},
 	})
 }
